@@ -2492,3 +2492,427 @@ func runNoPayloadInRecords(rr *RuleRun) {
 		}
 	}
 }
+
+// ---------------------------------------------------------------------------
+// C16.ext-body-consumed
+
+func init() {
+	register(&Rule{
+		ID: "C16.ext-body-consumed", Prop: "C16", Also: []string{"C17"}, Floor: 2, Controls: 0,
+		Doc: "unmarshalUnknownValue returns a value without error only after the body of the extension whose header it decoded was read from the stream (a read from dec.Buffered() / the decoder) or was established to be empty (extLen compared with 0): returning with the body unread leaves the decoder in the middle of the extension, and every following member is decoded from the wrong bytes",
+		Run: runExtBodyConsumed,
+	})
+}
+
+func runExtBodyConsumed(rr *RuleRun) {
+	c := rr.Ctx
+	pkg := "cty/msgpack"
+	info := c.Info(pkg)
+	fd := rr.MustDecl(pkg, "unmarshalUnknownValue")
+	if fd == nil {
+		return
+	}
+	// the length variable: second result of DecodeExtHeader
+	var extLen types.Object
+	var hdr ast.Node
+	inspectNoLit(fd.Body, func(n ast.Node) bool {
+		if as, ok := n.(*ast.AssignStmt); ok && len(as.Rhs) == 1 && len(as.Lhs) == 3 {
+			if call, ok := as.Rhs[0].(*ast.CallExpr); ok {
+				if f := callee(info, call); f != nil && f.Name() == "DecodeExtHeader" {
+					extLen, hdr = objOf(info, as.Lhs[1]), as
+				}
+			}
+		}
+		return true
+	})
+	if extLen == nil {
+		rr.Broken("stale anchor: unmarshalUnknownValue does not call DecodeExtHeader")
+		return
+	}
+	readsBody := func(n ast.Node) bool {
+		found := false
+		inspectNoLit(n, func(m ast.Node) bool {
+			call, ok := m.(*ast.CallExpr)
+			if !ok {
+				return true
+			}
+			switch funcKey(callee(info, call)) {
+			case "io.ReadAtLeast", "io.ReadFull", "io.CopyN":
+				found = true
+			}
+			if f := callee(info, call); f != nil && f.Pkg() != nil && strings.Contains(f.Pkg().Path(), "vmihailenco/msgpack") {
+				switch f.Name() {
+				case "Skip", "ReadFull", "DecodeBytes", "DecodeRaw":
+					found = true
+				}
+			}
+			return true
+		})
+		return found
+	}
+	extra := func(n ast.Node) []Effect {
+		if _, isStmt := n.(ast.Stmt); isStmt && readsBody(n) {
+			return []Effect{{Assert: &Fact{"consumed", "ext"}}}
+		}
+		if _, isExpr := n.(ast.Expr); isExpr && readsBody(n) {
+			return []Effect{{Assert: &Fact{"consumed", "ext"}}}
+		}
+		return nil
+	}
+	extraAtom := func(cond ast.Expr, truth bool) []Fact {
+		be, ok := ast.Unparen(cond).(*ast.BinaryExpr)
+		if !ok || objOf(info, be.X) != extLen {
+			return nil
+		}
+		v, ok := constInt(info, be.Y)
+		if !ok {
+			return nil
+		}
+		empty := false
+		switch be.Op {
+		case token.GTR: // extLen > 0 false
+			empty = !truth && v == 0
+		case token.GEQ: // extLen >= 1 false
+			empty = !truth && v == 1
+		case token.LEQ: // extLen <= 0 true
+			empty = truth && v == 0
+		case token.LSS: // extLen < 1 true
+			empty = truth && v == 1
+		case token.EQL:
+			empty = truth && v == 0
+		}
+		if empty {
+			return []Fact{{"consumed", "ext"}}
+		}
+		return nil
+	}
+	cf := c.CondFactsX(fd.Body, info, extra, extraAtom)
+	g := c.CFG(fd.Body, info)
+	n := 0
+	for _, ret := range g.Returns() {
+		if len(ret.Results) != 2 || !isNilIdent(info, ret.Results[1]) || !g.Dominates(hdr, ret) {
+			continue
+		}
+		n++
+		key := fmt.Sprintf("%s.unmarshalUnknownValue/return %s", pkg, trunc(exprStr(ret.Results[0]), 30))
+		if cf.HasFact(ret, "consumed", "ext") {
+			rr.OK(key, ret.Pos(), "the extension body was read or is empty on every path to this return")
+		} else {
+			rr.Violation(key, ret.Pos(), "a value is returned without error on a path that has neither read the body of the extension nor established that it is empty: the decoder is left inside the extension and the rest of the stream is decoded from the wrong position")
+		}
+	}
+	if n == 0 {
+		rr.Broken("stale anchor: unmarshalUnknownValue has no successful return after DecodeExtHeader")
+	}
+}
+
+// ---------------------------------------------------------------------------
+// C06.constructor-consistency-agreement
+
+func init() {
+	register(&Rule{
+		ID: "C06.constructor-consistency-agreement", Prop: "C06", Also: []string{"C17", "C08"}, Floor: 4, Controls: 0,
+		Doc: "sibling agreement between ListVal, MapVal, SetVal and their Can*Val predicates: the condition under which a member's type is rejected as inconsistent with the element type seen so far is the same in all six (after renaming locals) — the constructors must reject exactly what the predicates report, and lists, maps and sets must not differ in which mixtures of member types they admit",
+		Run: runConstructorConsistencyAgreement,
+	})
+}
+
+func runConstructorConsistencyAgreement(rr *RuleRun) {
+	c := rr.Ctx
+	info := c.Info("cty")
+	names := []string{"ListVal", "CanListVal", "MapVal", "CanMapVal", "SetVal", "CanSetVal"}
+	guards := map[string]string{}
+	pos := map[string]token.Pos{}
+	for _, name := range names {
+		fd := c.Decl("cty", name)
+		if fd == nil {
+			continue
+		}
+		inspectNoLit(fd.Body, func(n ast.Node) bool {
+			is, ok := n.(*ast.IfStmt)
+			if !ok || guards[name] != "" {
+				return true
+			}
+			// if elementType == DynamicPseudoType { … } else if GUARD { reject }
+			if !eqCond(is.Cond, func(e ast.Expr) bool { return objOf(info, e) != nil && isCtyType(info.TypeOf(e)) && !isPkgVar(info, e, "cty", "DynamicPseudoType") },
+				func(e ast.Expr) bool { return isPkgVar(info, e, "cty", "DynamicPseudoType") }) {
+				return true
+			}
+			ei, ok := is.Else.(*ast.IfStmt)
+			if !ok {
+				return true
+			}
+			cc := &canonCtx{info: info, subst: map[types.Object]string{}, locals: map[types.Object]string{}}
+			guards[name] = cc.expr(ei.Cond)
+			pos[name] = ei.Pos()
+			return true
+		})
+	}
+	if len(guards) < 4 {
+		rr.Broken(fmt.Sprintf("stale anchor: the element-type consistency guard was found in only %d of the six constructors / predicates", len(guards)))
+		return
+	}
+	count := map[string]int{}
+	for _, g := range guards {
+		count[g]++
+	}
+	major, best := "", 0
+	for g, n := range count {
+		if n > best || (n == best && g < major) {
+			major, best = g, n
+		}
+	}
+	for _, name := range names {
+		g, ok := guards[name]
+		if !ok {
+			continue
+		}
+		key := "cty." + name + "/consistency-guard"
+		if g == major {
+			rr.OK(key, pos[name], "rejects a member type under the same condition as its siblings: "+g)
+		} else {
+			rr.Violation(key, pos[name], fmt.Sprintf("%s rejects a member type under the condition %s, while %d of its siblings use %s: the constructors and their Can*Val predicates (and lists, maps, sets among themselves) disagree on which mixtures of member types are admitted, so a collection with members of different types can be built, or a predicate approves what the constructor panics on", name, g, best, major))
+		}
+	}
+}
+
+// ---------------------------------------------------------------------------
+// C05.prefix-contradiction-both-ways
+
+func init() {
+	register(&Rule{
+		ID: "C05.prefix-contradiction-both-ways", Prop: "C05", Floor: 1, Controls: 0,
+		Doc: "StringPrefixFull rejects (panics on) a new prefix that contradicts the recorded one whichever of the two is longer: there is a contradiction panic whose path condition compares the new prefix with the recorded prefix, and the panics of that kind are not all confined to one outcome of a comparison of the two lengths (a shorter new prefix that disagrees with the recorded one must be rejected just like a longer one)",
+		Run: runPrefixContradictionBothWays,
+	})
+}
+
+func runPrefixContradictionBothWays(rr *RuleRun) {
+	c := rr.Ctx
+	info := c.Info("cty")
+	fd := rr.MustDecl("cty", "RefinementBuilder.StringPrefixFull")
+	if fd == nil {
+		return
+	}
+	param := info.Defs[paramIdent(fd, 0)]
+	isRecorded := func(e ast.Expr) bool { // wip.prefix
+		se, ok := ast.Unparen(e).(*ast.SelectorExpr)
+		return ok && se.Sel.Name == "prefix" && namedType(info.TypeOf(se.X)) == "cty.refinementString"
+	}
+	// variables derived from the recorded prefix / from the new prefix
+	fromRec, fromNew := map[types.Object]bool{}, map[types.Object]bool{param: true}
+	mentions := func(e ast.Expr, set map[types.Object]bool, sel bool) bool {
+		found := false
+		ast.Inspect(e, func(n ast.Node) bool {
+			if ex, ok := n.(ast.Expr); ok && sel && isRecorded(ex) {
+				found = true
+			}
+			if id, ok := n.(*ast.Ident); ok && set[info.Uses[id]] {
+				found = true
+			}
+			return !found
+		})
+		return found
+	}
+	for pass := 0; pass < 3; pass++ {
+		inspectNoLit(fd.Body, func(n ast.Node) bool {
+			as, ok := n.(*ast.AssignStmt)
+			if !ok || len(as.Lhs) != len(as.Rhs) {
+				return true
+			}
+			for i, l := range as.Lhs {
+				o := objOf(info, l)
+				if o == nil {
+					continue
+				}
+				if b, ok := o.Type().Underlying().(*types.Basic); !ok || b.Kind() != types.String {
+					continue
+				}
+				if mentions(as.Rhs[i], fromRec, true) {
+					fromRec[o] = true
+				}
+				if mentions(as.Rhs[i], fromNew, false) && o != param {
+					fromNew[o] = true
+				}
+			}
+			return true
+		})
+	}
+	isLenOf := func(e ast.Expr, rec bool) bool {
+		call, ok := ast.Unparen(e).(*ast.CallExpr)
+		if !ok || !isBuiltin(info, call, "len") || len(call.Args) != 1 {
+			return false
+		}
+		if rec {
+			return isRecorded(call.Args[0])
+		}
+		return objOf(info, call.Args[0]) == param
+	}
+	lengthRelation := func(cond ast.Expr) bool {
+		be, ok := ast.Unparen(cond).(*ast.BinaryExpr)
+		if !ok {
+			return false
+		}
+		return (isLenOf(be.X, true) && isLenOf(be.Y, false)) || (isLenOf(be.X, false) && isLenOf(be.Y, true))
+	}
+	comparesContent := func(cond ast.Expr) bool {
+		// have != new, strings.HasPrefix(a, b) … with one side from the recorded and one from the new prefix
+		return mentions(cond, fromRec, true) && mentions(cond, fromNew, false) && !lengthRelation(cond)
+	}
+	cf := c.CondFacts(fd.Body, info, nil)
+	type pan struct {
+		pos      token.Pos
+		confined string
+	}
+	var pans []pan
+	inspectNoLit(fd.Body, func(n ast.Node) bool {
+		call, ok := n.(*ast.CallExpr)
+		if !ok || !isBuiltin(info, call, "panic") {
+			return true
+		}
+		if !cf.HoldsAt(call, func(cond ast.Expr, truth bool) bool { return comparesContent(cond) }) {
+			return true
+		}
+		confined := ""
+		cf.HoldsAt(call, func(cond ast.Expr, truth bool) bool {
+			if lengthRelation(cond) {
+				confined = fmt.Sprintf("%s is %v", exprStr(cond), truth)
+			}
+			return false
+		})
+		pans = append(pans, pan{call.Pos(), confined})
+		return true
+	})
+	key := "cty.RefinementBuilder.StringPrefixFull/contradiction-with-recorded-prefix"
+	if len(pans) == 0 {
+		rr.Violation(key, fd.Pos(), "no panic in StringPrefixFull is conditioned on a comparison of the new prefix with the recorded one: a new prefix that contradicts an earlier constraint is accepted")
+		return
+	}
+	free := false
+	outcomes := map[string]bool{}
+	for _, p := range pans {
+		if p.confined == "" {
+			free = true
+		}
+		outcomes[p.confined] = true
+	}
+	if free || len(outcomes) >= 2 {
+		rr.OK(key, pans[0].pos, fmt.Sprintf("%d contradiction panic(s), not confined to one outcome of a length comparison", len(pans)))
+		return
+	}
+	rr.Violation(key, pans[0].pos, fmt.Sprintf("every panic that rejects a prefix contradicting the recorded one is reached only when %s: for the other outcome a contradicting prefix is silently accepted (and the recorded constraint is kept or replaced without the two being compared)", pans[0].confined))
+}
+
+// ---------------------------------------------------------------------------
+// C05.known-prefix-whole-value
+
+func init() {
+	register(&Rule{
+		ID: "C05.known-prefix-whole-value", Prop: "C05", Floor: 1, Controls: 0,
+		Doc: "StringPrefixFull on a known string compares the prefix with the whole string: the known string (b.orig.AsString()) is not cut down to a length derived from the new prefix before the two are compared, unless the lengths themselves are compared with a panic — a known value \"foo\" contradicts the prefix \"foo-bar\" although their overlapping parts agree",
+		Run: runKnownPrefixWholeValue,
+	})
+}
+
+func runKnownPrefixWholeValue(rr *RuleRun) {
+	c := rr.Ctx
+	info := c.Info("cty")
+	fd := rr.MustDecl("cty", "RefinementBuilder.StringPrefixFull")
+	if fd == nil {
+		return
+	}
+	param := info.Defs[paramIdent(fd, 0)]
+	key := "cty.RefinementBuilder.StringPrefixFull/known-value"
+	// the known string: results of AsString() on the original value
+	known := map[types.Object]bool{}
+	var asString *ast.CallExpr
+	inspectNoLit(fd.Body, func(n ast.Node) bool {
+		if call, ok := n.(*ast.CallExpr); ok && isCall(info, call, "cty.Value.AsString") {
+			asString = call
+			if as, ok := c.Parent(call).(*ast.AssignStmt); ok && len(as.Lhs) == 1 {
+				if o := objOf(info, as.Lhs[0]); o != nil {
+					known[o] = true
+				}
+			}
+		}
+		return true
+	})
+	if asString == nil {
+		rr.Violation(key, fd.Pos(), "StringPrefixFull never reads the string of a known value: a prefix that contradicts a known value is accepted")
+		return
+	}
+	// lengths derived from the new prefix
+	fromNew := map[types.Object]bool{param: true}
+	ment := func(e ast.Expr) bool {
+		found := false
+		ast.Inspect(e, func(n ast.Node) bool {
+			if id, ok := n.(*ast.Ident); ok && fromNew[info.Uses[id]] {
+				found = true
+			}
+			return !found
+		})
+		return found
+	}
+	for pass := 0; pass < 3; pass++ {
+		inspectNoLit(fd.Body, func(n ast.Node) bool {
+			if as, ok := n.(*ast.AssignStmt); ok && len(as.Lhs) == len(as.Rhs) {
+				for i, l := range as.Lhs {
+					if o := objOf(info, l); o != nil && !known[o] && ment(as.Rhs[i]) {
+						fromNew[o] = true
+					}
+				}
+			}
+			return true
+		})
+	}
+	var cut *ast.SliceExpr
+	inspectNoLit(fd.Body, func(n ast.Node) bool {
+		se, ok := n.(*ast.SliceExpr)
+		if !ok || !known[objOf(info, se.X)] {
+			return true
+		}
+		if (se.High != nil && ment(se.High)) || (se.Low != nil && ment(se.Low)) {
+			cut = se
+		}
+		return true
+	})
+	if cut == nil {
+		rr.OK(key, asString.Pos(), "the known string is compared without being cut to the length of the prefix")
+		return
+	}
+	// a panic conditioned on a comparison of the two lengths makes the cut harmless
+	cf := c.CondFacts(fd.Body, info, nil)
+	lengthPanic := false
+	inspectNoLit(fd.Body, func(n ast.Node) bool {
+		call, ok := n.(*ast.CallExpr)
+		if !ok || !isBuiltin(info, call, "panic") {
+			return true
+		}
+		if cf.HoldsAt(call, func(cond ast.Expr, truth bool) bool {
+			be, ok := ast.Unparen(cond).(*ast.BinaryExpr)
+			if !ok {
+				return false
+			}
+			isLen := func(e ast.Expr, ofKnown bool) bool {
+				lc, ok := ast.Unparen(e).(*ast.CallExpr)
+				if !ok || !isBuiltin(info, lc, "len") || len(lc.Args) != 1 {
+					return false
+				}
+				o := objOf(info, lc.Args[0])
+				if ofKnown {
+					return known[o]
+				}
+				return o == param
+			}
+			return (isLen(be.X, true) && isLen(be.Y, false)) || (isLen(be.X, false) && isLen(be.Y, true))
+		}) {
+			lengthPanic = true
+		}
+		return true
+	})
+	if lengthPanic {
+		rr.OK(key, cut.Pos(), "the known string is cut to the overlap, and the lengths are compared with a panic")
+	} else {
+		rr.Violation(key, cut.Pos(), fmt.Sprintf("the known string is cut down to %s, a length derived from the new prefix, before it is compared with it, and the two lengths are never compared: a prefix longer than the known string (\"foo-bar\" for the value \"foo\") agrees on the overlap and is accepted although it contradicts the value", exprStr(cut)))
+	}
+}
